@@ -105,6 +105,8 @@ func main() {
 	}
 	if *variant == "lab" {
 		add("torrent/torrent.go", replaceOnce("go t.run()", "go t.verifEntry()"))
+		// the buffer a sync.Pool hands out is the runtime's choice; the lab owns it (engine/vpool)
+		add("internal/bufferpool/bufferpool.go", importRewrite(`"sync"`, `sync "`+modpfx+`vpool"`))
 	}
 	if *variant == "thread" {
 		for _, f := range []string{"torrent/session.go", "torrent/torrent.go"} {
@@ -264,6 +266,12 @@ func genStep(src, dst string) {
 			return true
 		})
 		var body bytes.Buffer
+		if as, ok := cc.Comm.(*ast.AssignStmt); ok && len(as.Lhs) == 1 {
+			// observation point: the harness sees the value a case received before the handler runs
+			if id, ok := as.Lhs[0].(*ast.Ident); ok && id.Name != "_" {
+				fmt.Fprintf(&body, "verifObserve(t, %d, %s)\n", i, id.Name)
+			}
+		}
 		for _, st := range cc.Body {
 			printer.Fprint(&body, fset, st)
 			body.WriteString("\n")
